@@ -56,7 +56,9 @@ class MutableRecord(object):
     """
     __slots__ = ()
 
-    def __init__(self, **kwds):
+    def __init__(self, *args, **kwds):
+        for attr, value in zip(self._all_slots(), args):
+            setattr(self, attr, value)
         for attr, value in kwds.items():
             setattr(self, attr, value)
 
